@@ -82,23 +82,66 @@ theorem time_scale_spellings :
   `rejects_out_of_range_partial` carries the decidable hypothesis `d10class = false`, and
   `d10_counterexample` decides a witness inside the class. -/
 
-/-- month 13, hour 24/25, minute 60, second 61, 30 February of a common year, 31 April, second = 60 off a
-    leap second …: any text of the five forms (`Spec.renderText`; every field written with its two digits,
-    the year with four, whatever the values; any fraction, offset, scale) whose date-time the calendar
-    specification requires to be rejected is an ERROR — never another date — outside class D10 -/
+/-- month 13, hour 24/25, minute 60, second 61, 30 February of a common year, 31 April …: any text of the five
+    forms (`Spec.renderText`; every field written with its two digits, the year with four, whatever the values;
+    any fraction, offset, scale) whose date-time the calendar specification requires to be rejected is an ERROR
+    — never another date — through `from_gregorian_str` AND through `from_str`, outside class D10.  A written
+    second of 60 is judged here with 59 in its place (the rest must still be a valid date-time); whether the
+    `:60` itself is allowed depends on the written offset: `second60_accepted_iff_leap_label` below. -/
 theorem rejects_out_of_range_partial (f : Form) (y mo d h mi s : Int) (nd : Nat) (frac : Int) (neg : Bool) (oh om : Int)
     (ts : TS) (hy : 0 ≤ y ∧ y ≤ 9999) (hmo : 0 ≤ mo ∧ mo < 100) (hd : 0 ≤ d ∧ d < 100) (hh : 0 ≤ h ∧ h < 100)
     (hmi : 0 ≤ mi ∧ mi < 100) (hs : 0 ≤ s ∧ s < 100) (hnd : nd ≤ 9) (hf : 0 ≤ frac ∧ frac < 10 ^ nd)
     (hoh : 0 ≤ oh ∧ oh < 100) (hom : 0 ≤ om ∧ om < 100)
-    (hrej : mustReject iersLeapDates ⟨y, mo, d⟩ h mi s (fracNs nd frac) = true ∨ h = 24)
+    (hrej : mustReject iersLeapDates ⟨y, mo, d⟩ h mi (if s = 60 then 59 else s) (fracNs nd frac) = true ∨ h = 24)
     (hD10 : Cal.d10class y mo d = false) :
-    fromGregorianStrIdx (renderText f ⟨y, mo, d⟩ h mi s nd frac neg oh om ts.name) = .err :=
+    fromGregorianStrIdx (renderText f ⟨y, mo, d⟩ h mi s nd frac neg oh om ts.name) = .err ∧
+    ∀ dur, epochFromStrWith dur (renderText f ⟨y, mo, d⟩ h mi s nd frac neg oh om ts.name) = .err :=
   rejects_out_of_range f y mo d h mi s nd frac neg oh om ts hy hmo hd hh hmi hs hnd hf hoh hom hrej hD10
 
 example : mustReject iersLeapDates ⟨2019, 2, 30⟩ 0 0 0 (fracNs 0 0) = true ∧ Cal.d10class 2019 2 30 = false := by decide
 example : mustReject iersLeapDates ⟨2017, 13, 1⟩ 0 0 0 (fracNs 0 0) = true ∧ Cal.d10class 2017 13 1 = false := by decide
 example : mustReject iersLeapDates ⟨2017, 1, 14⟩ 25 0 0 (fracNs 0 0) = true := by decide
 example : mustReject iersLeapDates ⟨2017, 1, 14⟩ 0 60 0 (fracNs 0 0) = true := by decide
+
+/-- the rejection clause for `Epoch::from_str` as the driver runs it (corollary) -/
+theorem from_str_rejects_out_of_range_partial (f : Form) (y mo d h mi s : Int) (nd : Nat) (frac : Int) (neg : Bool)
+    (oh om : Int) (ts : TS) (hy : 0 ≤ y ∧ y ≤ 9999) (hmo : 0 ≤ mo ∧ mo < 100) (hd : 0 ≤ d ∧ d < 100)
+    (hh : 0 ≤ h ∧ h < 100) (hmi : 0 ≤ mi ∧ mi < 100) (hs : 0 ≤ s ∧ s < 100) (hnd : nd ≤ 9)
+    (hf : 0 ≤ frac ∧ frac < 10 ^ nd) (hoh : 0 ≤ oh ∧ oh < 100) (hom : 0 ≤ om ∧ om < 100)
+    (hrej : mustReject iersLeapDates ⟨y, mo, d⟩ h mi (if s = 60 then 59 else s) (fracNs nd frac) = true ∨ h = 24)
+    (hD10 : Cal.d10class y mo d = false) :
+    epochFromStrIdx (renderText f ⟨y, mo, d⟩ h mi s nd frac neg oh om ts.name) = .err :=
+  (rejects_out_of_range f y mo d h mi s nd frac neg oh om ts hy hmo hd hh hmi hs hnd hf hoh hom hrej hD10).2 numericDurF
+
+/-- SECOND = 60 (fix 582282e, D38): with the other fields a valid date-time of the years 0001-9999, the text
+    is accepted EXACTLY when its fields minus the written offset show 23:59 of a day that precedes an entry of
+    the leap-second table (`Spec.leapLabelOwn`) — so `2017-01-01T09:59:60+10:00` is accepted and
+    `2016-12-31T23:59:60+10:00`, `2016-12-30T23:59:60Z`, `2016-12-31T23:58:60Z` are errors — in every scale
+    (C08 lets the constructors accept that label "in any time scale") and through both parsers -/
+theorem second60_accepted_iff_leap_label (f : Form) (y mo d h mi : Int) (nd : Nat) (frac : Int) (neg : Bool)
+    (oh om : Int) (ts : TS) (hg : inGrammar60 ⟨y, mo, d⟩ h mi nd frac oh om = true) :
+    (leapLabelOwn iersLeapDates ⟨y, mo, d⟩ h mi (offsetMin f neg oh om) = false →
+      fromGregorianStrIdx (renderText f ⟨y, mo, d⟩ h mi 60 nd frac neg oh om ts.name) = .err ∧
+      epochFromStrIdx (renderText f ⟨y, mo, d⟩ h mi 60 nd frac neg oh om ts.name) = .err) ∧
+    (leapLabelOwn iersLeapDates ⟨y, mo, d⟩ h mi (offsetMin f neg oh om) = true →
+      ∃ e, fromGregorianStrIdx (renderText f ⟨y, mo, d⟩ h mi 60 nd frac neg oh om ts.name) = .ok e ∧
+        epochFromStrIdx (renderText f ⟨y, mo, d⟩ h mi 60 nd frac neg oh om ts.name) = .ok e) := by
+  obtain ⟨r, ts', _, _, _, h1, h2⟩ := second60_text f y mo d h mi nd frac neg oh om ts hg
+  constructor
+  · intro hl
+    rw [hl] at h1 h2
+    have h3 := h2 numericDurF
+    simp only [Bool.false_eq_true, if_false] at h1 h3
+    exact ⟨h1, h3⟩
+  · intro hl
+    rw [hl] at h1 h2
+    have h3 := h2 numericDurF
+    simp only [if_true] at h1 h3
+    exact ⟨⟨r, ts'⟩, h1, h3⟩
+
+example : inGrammar60 ⟨2017, 1, 1⟩ 9 59 0 0 10 0 = true ∧
+    leapLabelOwn iersLeapDates ⟨2017, 1, 1⟩ 9 59 (offsetMin .O false 10 0) = true ∧
+    leapLabelOwn iersLeapDates ⟨2016, 12, 31⟩ 23 59 (offsetMin .O false 10 0) = false := by decide
 
 /-- D10 (recorded, pinned by `test_range`): "2020-02-30T00:00:00 UTC" is well formed, the specification
     requires it to be rejected, and the parser accepts it as 1 March -/
